@@ -54,7 +54,7 @@ CHECKS = {
                 note="secp256k1 scalar vectors outside the alphabets are not explored; non-power-of-two sizes are only driven with the all-zero statement (a general input would make a defective verifier read outside its arrays)."),
     "C09": dict(level=MC, design="§4 C09",
                 technique="full product of the interacting clamp dimensions + single-deviation enumeration on the real prover, oracle = documented success/failure classes + soundness obligations + specified (model) verifier",
-                text="The full product value x min_value x exponent x min_bits over boundary alphabets (16 x 16 x 9 x 12 in quick; 70 x 70 x 22 x 67 in thorough) is run through the real prover; documented-invalid parameters must be refused, documented-valid ones must succeed, and every success - also in the grey zone the header leaves open - must verify with min <= value <= max, agree with rangeproof_info, stay within rangeproof_max_size, rewind to exactly (value, blind, zero-padded message) with the creator's nonce and fail with any other, be byte-deterministic, and be accepted with the same range by the independent model verifier; message length (around 128*(rings-1)), extra-commit length, blinds, nonces, generators and output-buffer sizes are explored as single deviations on 12 core points.",
+                text="The full product value x min_value x exponent x min_bits over boundary alphabets (16 x 16 x 9 x 12 in quick; 70 x 16 x 22 x 20 in thorough) is run through the real prover; documented-invalid parameters must be refused, documented-valid ones must succeed, and every success - also in the grey zone the header leaves open - must verify with min <= value <= max, agree with rangeproof_info, stay within rangeproof_max_size, rewind to exactly (value, blind, zero-padded message) with the creator's nonce and fail with any other, be byte-deterministic, and be accepted with the same range by the independent model verifier; message length (around 128*(rings-1)), extra-commit length, blinds, nonces, generators and output-buffer sizes are explored as single deviations on 12 core points.",
                 note="Parameter values outside the alphabets are not explored; where the header is looser than the code (value >= 2^63 with non-zero min_value / exp) refusal and success are both accepted."),
     "C10": dict(level=MC, design="§4 C10",
                 technique="model-prover construction of adversarial-but-valid proofs + single-mutation enumeration, decided by an independent model verifier; total enumeration of the 2-byte header space for rangeproof_info",
